@@ -12,7 +12,7 @@
 From Coq Require Import List ZArith.
 From Coq Require Import Reals.
 From Flocq Require Import IEEE754.Binary IEEE754.Bits.
-From RtoscV Require Import Auto.F32 Auto.AutoModel Auto.AutoMapModel Auto.AutoProofs Auto.AutoMapProofs Auto.AutoRemapProofs Auto.AutoRegress Auto.AutoMapRegress.
+From RtoscV Require Import Auto.F32 Auto.AutoModel Auto.AutoMapModel Auto.AutoProofs Auto.AutoMapProofs Auto.AutoRemapProofs Auto.FloatOrder Auto.AutoMonoProofs Auto.AutoCpProofs Auto.AutoRegress Auto.AutoMapRegress.
 Import ListNotations.
 Local Open Scope Z_scope.
 
@@ -113,38 +113,68 @@ Theorem C19_toggle : forall (expf_o : f32 -> f32) s value,
   sub_output expf_o s value = [MsgT (s_path s) (gt32 (lin value (cp1 s) (cp3 s)) f32_half)].
 Proof. exact toggle_output. Qed.
 
-(* the value never decreases when the slot value increases (for positive gain).
-   FULL STATEMENT (not proved): for every gain > 0, min <= max and all slot values.
-   PROVED: under the side condition [no overflow] - the control points that
-   updateMapping computes and the two linear images v*(b-a)+a are finite floats
-   (violated only by magnitudes near 3.4e38).  [remap s0] is the sub-automation
-   after updateMapping; gain >= 0 and min <= max are the property's own
-   hypotheses. *)
-Theorem C19_monotone_partial : forall (expf_o : f32 -> f32) s0 v1 v2,
+(* the value never decreases when the slot value increases (for positive gain):
+   FULL for all finite slot values.  [remap s0] is the sub-automation after
+   updateMapping; [nn32 (gain s0)]: the gain is not negative (0 <= gain; +inf and
+   NaN gains included); the offset is arbitrary; no condition on overflow: a
+   product or sum that overflows goes to the infinity of the right sign and is
+   clamped, NaN (inf-inf, 0*inf) is clamped to the minimum and arises for all
+   slot values or only below the step. *)
+Theorem C19_monotone : forall (expf_o : f32 -> f32) s0 v1 v2,
   let s := remap s0 in
   used s0 = true -> s_type s0 = ch_f -> s_scale s0 = 0 ->
   finite32 (s_min s0) -> finite32 (s_max s0) -> (val (s_min s0) <= val (s_max s0))%R ->
-  (0 <= val (gain s0))%R ->
-  finite32 (cp1 s) -> finite32 (cp3 s) ->
-  (val v1 <= val v2)%R ->
-  finite32 (lin v1 (cp1 s) (cp3 s)) -> finite32 (lin v2 (cp1 s) (cp3 s)) ->
+  nn32 (gain s0) ->
+  finite32 v1 -> finite32 v2 -> (val v1 <= val v2)%R ->
   exists c1 c2, sub_output expf_o s v1 = [MsgF (s_path s) c1] /\
-                sub_output expf_o s v2 = [MsgF (s_path s) c2] /\ (val c1 <= val c2)%R.
-Proof. exact remap_float_monotone. Qed.
+                sub_output expf_o s v2 = [MsgF (s_path s) c2] /\
+                finite32 c1 /\ finite32 c2 /\ (val c1 <= val c2)%R.
+Proof. exact float_monotone_full. Qed.
 
-Theorem C19_monotone_int_partial : forall (expf_o : f32 -> f32) s0 v1 v2 a b,
+Theorem C19_monotone_int : forall (expf_o : f32 -> f32) s0 v1 v2 a b,
   let s := remap s0 in
   used s0 = true -> s_type s0 = ch_i ->
   finite32 (s_min s0) -> finite32 (s_max s0) ->
   val (s_min s0) = IZR a -> val (s_max s0) = IZR b -> a <= b ->
   -2147483648 <= a -> b <= 2147483647 ->
-  (0 <= val (gain s0))%R ->
-  finite32 (cp1 s) -> finite32 (cp3 s) ->
-  (val v1 <= val v2)%R ->
-  finite32 (lin v1 (cp1 s) (cp3 s)) -> finite32 (lin v2 (cp1 s) (cp3 s)) ->
+  nn32 (gain s0) ->
+  finite32 v1 -> finite32 v2 -> (val v1 <= val v2)%R ->
   exists z1 z2, sub_output expf_o s v1 = [MsgI (s_path s) z1] /\
                 sub_output expf_o s v2 = [MsgI (s_path s) z2] /\ z1 <= z2.
-Proof. exact remap_int_monotone. Qed.
+Proof. exact int_monotone_full. Qed.
+
+(* a finite non-negative gain is such a gain *)
+Theorem C19_gain_nonneg : forall g, finite32 g -> (0 <= val g)%R -> nn32 g.
+Proof. exact nn32_of_nonneg. Qed.
+
+(* updateMapping never inverts the control points (overflow and NaN included) *)
+Theorem C19_control_points_not_inverted : forall s,
+  finite32 (s_min s) -> finite32 (s_max s) -> (val (s_min s) <= val (s_max s))%R ->
+  nn32 (gain s) ->
+  lt32 (cp3 (remap s)) (cp1 (remap s)) = false.
+Proof. exact remap_not_inverted. Qed.
+
+(* the mapping itself: any control points that are not inverted (NaN allowed),
+   all finite slot values *)
+Theorem C19_lin_clamp_monotone : forall a b mn mx v1 v2,
+  finite32 mn -> finite32 mx -> (val mn <= val mx)%R ->
+  lt32 b a = false ->
+  finite32 v1 -> finite32 v2 -> (val v1 <= val v2)%R ->
+  finite32 (clamp (lin v1 a b) mn mx) /\ finite32 (clamp (lin v2 a b) mn mx) /\
+  (val (clamp (lin v1 a b) mn mx) <= val (clamp (lin v2 a b) mn mx))%R.
+Proof. exact lin_clamp_monotone. Qed.
+
+(* what remains false: with an INFINITE slot value the statement fails (equal
+   control points: inf * 0 = NaN goes to the minimum, every finite slot value to
+   the maximum).  Reproduced on the real code (notes/C19.md). *)
+Theorem C19_monotone_infinite_refuted :
+  lt32 (cp3 inf_witness_sub) (cp1 inf_witness_sub) = false /\
+  fle inf_witness_v1 inf_witness_v2 /\
+  bits_of_b32 (clamp (lin inf_witness_v1 (cp1 inf_witness_sub) (cp3 inf_witness_sub))
+                     (s_min inf_witness_sub) (s_max inf_witness_sub)) = 1060320051 /\
+  bits_of_b32 (clamp (lin inf_witness_v2 (cp1 inf_witness_sub) (cp3 inf_witness_sub))
+                     (s_min inf_witness_sub) (s_max inf_witness_sub)) = 1036831949.
+Proof. exact monotone_infinite_refuted. Qed.
 
 (* updateMapping orders the control points for gain >= 0 and min <= max *)
 Theorem C19_control_points_ordered : forall s,
